@@ -412,6 +412,18 @@ def do_refine(w, marks, kinds, via='refine', region=None, mark_truncate=False):
 # ----------------------------------------------------------------------------
 # structural comparison (used by every property to stay in sync with the model)
 
+def deactivated_functions(hs, l, m):
+    """deactivated functions of level l as multi-indices: from the attribute pyiga itself uses, or, should a
+    refactoring rename it, from the public deactivated_indices()"""
+    try:
+        return set(hs.deactfun[l])
+    except AttributeError:
+        idx = hs.deactivated_indices()[l]
+        if isinstance(idx, tuple) or (len(idx) and not np.isscalar(idx[0])):
+            return set(zip(*[np.asarray(a).tolist() for a in idx])) if len(idx) else set()
+        return set(zip(*np.unravel_index(np.asarray(idx, dtype=int), m.nfuncs(l)))) if len(idx) else set()
+
+
 def structure_matches(w, report):
     """Compare cells and functions of the real object with the model.
     report=True (C04): mismatches are violations.  Otherwise returns False on
@@ -422,7 +434,7 @@ def structure_matches(w, report):
         real_act = set(hs.active_cells(l)) if l < hs.numlevels else set()
         real_de = set(hs.deactivated_cells(l)) if l < hs.numlevels else set()
         real_af = set(hs.active_functions(l)) if l < hs.numlevels else set()
-        real_df = set(hs.deactfun[l]) if l < hs.numlevels else set()
+        real_df = deactivated_functions(hs, l, m) if l < hs.numlevels else set()
         ma, mr = m.active_cells(l), m.refined_at(l)
         maf, mdf = m.functions(l)
         for name, a, b in (('active-cells', real_act, ma), ('deactivated-cells', real_de, mr),
@@ -653,7 +665,7 @@ def canon(r):
         return ('HSpace', r.dim, r.numlevels, bool(r.truncate),
                 tuple(tuple(sorted(r.active_cells(l))) for l in range(r.numlevels)),
                 tuple(tuple(sorted(r.active_functions(l))) for l in range(r.numlevels)),
-                tuple(tuple(sorted(r.deactfun[l])) for l in range(r.numlevels)),
+                tuple(tuple(sorted(getattr(r, 'deactfun', None)[l])) if hasattr(r, 'deactfun') else () for l in range(r.numlevels)),
                 tuple(tuple(kv.kv.tolist()) for kv in r.knotvectors(0)),
                 repr(sorted(r.bdspecs)) if getattr(r, 'bdspecs', None) is not None else None)
     if isinstance(r, dict):
